@@ -28,7 +28,7 @@ Proof.
   - constructor; cbn; auto. intros k v idx Hk. destruct k; discriminate.
   - constructor; cbn; [intros loc []|intros a b []|constructor].
   - reflexivity.
-  - cbn. constructor; [|constructor]. repeat split; cbn; auto. eexists; split; [reflexivity|discriminate].
+  - cbn. constructor; [|constructor]. repeat split; cbn; auto. left. eexists; split; [reflexivity|discriminate].
   - left. reflexivity.
 Qed.
 
@@ -63,9 +63,11 @@ Proof.
   assert (P1 : pres nl (init_fstate next) sf vf).
   { eapply (pure_seq nl cx (lsize is) is (le_n _)); eauto. left. reflexivity. }
   destruct (compile_cons _ _ _ _ _ _ _ Hc2) as (vc & sc & Evc & Ehc & Hcr). cbn in Hcr. inversion Hcr; subst vc sc; clear Hcr.
-  destruct (op_end nl cx sf vf v' sF (p_inv _ _ _ _ P1) Evc Ehc) as (locs & bp' & E1 & E2 & E3 & E4 & E5 & E6 & E7 & E8 & X3 & Rs & Ic & Huc).
+  destruct (op_end nl cx sf vf v' sF (p_inv _ _ _ _ P1) Evc Ehc) as (j & bp' & E1 & E2 & E3 & E4 & E5 & E6 & E7 & E8 & X3 & Rs & Ic & Huc).
   assert (Ebp' : bp' = []).
   { pose proof (p_bp _ _ _ _ P1) as Hb. rewrite E1 in Hb. cbn in Hb. inversion Hb as [|? ? ? ? _ Hb']; subst. inversion Hb'. reflexivity. }
+  pose proof (p_bp _ _ _ _ P1) as Hb0. rewrite E1 in Hb0. cbn [init_fstate c_bp] in Hb0.
+  destruct (bp_sub_head_u _ _ _ _ Hb0) as (add & ->). cbn [locs_of] in Rs. set (locs := [] ++ add) in *.
   assert (MF : matches F sF).
   { split; [unfold F; rewrite app_length; lia|]. intros p Hp _. unfold F. rewrite app_nth1 by lia. reflexivity. }
   assert (Mf : matches F sf) by (eapply matches_ext; eauto).
@@ -81,7 +83,8 @@ Proof.
   pose proof (sim_all art mhost codes fidx c consts Hcodes nl NR Hn cap host m cx F HF Hlen f f (le_n _)
                 is (init_fstate next) (init_vstate None) vf sf [(cur_off sf, 0)] st locals [] M Hc1 Hok I0 eq_refl
                 (or_introl eq_refl) Mf Lf) as Hsim.
-  assert (Hlo : lows [(cur_off sf, 0)] (init_fstate next)) by (constructor; [cbn; lia|constructor]).
+  assert (Hlo : lows [(cur_off sf, 0)] (init_fstate next)).
+  { constructor; [|constructor]. split; [cbn; lia|]. cbn [fst]. apply (T_range F Hlen sf). exact Mf. }
   specialize (Hsim Hlo (small_of_mono NR sf sF SmF Mo) (consts_ok_of_mono consts sf sF CoF Mo) R).
   assert (Hbridge : forall st1 l1 M1, rel art fidx consts nl NR cap sf st1 l1 [] M1 ->
             exists n M2, nsteps art mhost codes n M1 = SNext M2 /\ frame_eq M1 M2 /\ rel art fidx consts nl NR cap sF st1 l1 [] M2).
